@@ -176,7 +176,15 @@ class Env:
         if k == "DMap":
             if not (isinstance(j, tuple) and j[0] == "obj"):
                 raise DeErr("expected object at %s" % where)
-            return ("VMap", [(kk, self.de(d[1], x, where)) for kk, x in j[1]])
+            out = []            # HashMap::insert: a repeated key replaces the value (Model/Serde.v dedup_last)
+            for kk, x in j[1]:
+                v = self.de(d[1], x, where)
+                for i, (k0, _) in enumerate(out):
+                    if k0 == kk:
+                        out[i] = (kk, v); break
+                else:
+                    out.append((kk, v))
+            return ("VMap", out)
         if k == "DTuple":
             if not isinstance(j, list) or len(j) != len(d[1]):
                 raise DeErr("expected %d-array at %s" % (len(d[1]), where))
@@ -251,6 +259,11 @@ class Env:
             raise DeErr("integer out of range at %s" % where)
         if k == "DFloat" and isinstance(j, float):
             return ("VFloat", j)
+        if k == "DFloat" and isinstance(j, int) and not isinstance(j, bool):
+            # serde_json hands an integer token to the f64 visitor as `z as f64`; exact up to 2^53 (Model/Serde.v int_is_exact_float)
+            if abs(j) <= 2 ** 53:
+                return ("VFloat", float(j))
+            raise DeErr("integer beyond 2^53 where a float is expected (rounds; not modelled) at %s" % where)
         if k == "DBool" and isinstance(j, bool):
             return ("VBool", j)
         if k == "DChar" and isinstance(j, str) and len(j) == 1:
@@ -279,6 +292,9 @@ class Env:
 
     def de_fields(self, fs, kvs, where):
         own = [f["name"] for f in fs if not f["flatten"]]
+        seen_own = [kk for kk, _ in kvs if kk in own]
+        if len(seen_own) != len(set(seen_own)):
+            raise DeErr("duplicate field at %s" % where)      # Model/Serde.v de_fields: nodupb (own_keys ..)
         out = []
         for f in fs:
             if f["flatten"]:
